@@ -17,7 +17,7 @@ func init() {
 		Cases: func(tier string) int {
 			switch tier {
 			case "thorough":
-				return 2500000
+				return len(c07Enum) + 2500000
 			case "race":
 				return 60000
 			}
@@ -25,7 +25,7 @@ func init() {
 		},
 		Run:            c07Run,
 		Floor:          func(tier string) int { return 5000 },
-		Rule:           "generated requests for Reshape (targets built from factorisations of the element count with 0 and -1 inserted at every position; invalid: count mismatch, two -1, entry < -1, 0 beyond the input rank, non-dividing -1), Flatten (axis over [-rank-2, rank+2]), Squeeze (axes absent / every subset of extent-1 axes in any order and sign spelling; invalid: out of range, duplicates incl. via negative spelling, extent != 1), Unsqueeze (any set of output positions, any order and sign; invalid: duplicates, out of range), Shape; input ranks 0..5, all 14 element types, unique-valued inputs so element order is identified; through the operator API and every 4th case through Run. Valid => exact tensor (MUST_EQUAL), ONNX-invalid => error (MUST_ERROR). Non-trivial = the request changes the shape or is invalid; distinct = (operator, dtype, input shape, parameters).",
+		Rule:           "generated requests for Reshape (targets built from factorisations of the element count with 0 and -1 inserted at every position; invalid: count mismatch, two -1, entry < -1, 0 beyond the input rank, non-dividing -1), Flatten (axis over [-rank-2, rank+2]), Squeeze (axes absent / every subset of extent-1 axes in any order and sign spelling; invalid: out of range, duplicates incl. via negative spelling, extent != 1), Unsqueeze (any set of output positions, any order and sign; invalid: duplicates, out of range), Shape; input ranks 0..5, all 14 element types, unique-valued inputs so element order is identified; through the operator API and every 4th case through Run. Both tiers first enumerate completely, for every shape of rank 0..3 with extents {1,2}: every Flatten axis in [-rank-2, rank+2], every non-empty axis subset for Squeeze and every set of 1..2 output positions for Unsqueeze, each in every order and every sign spelling. Valid => exact tensor (MUST_EQUAL), ONNX-invalid => error (MUST_ERROR). Non-trivial = the request changes the shape or is invalid; distinct = (operator, dtype, input shape, parameters).",
 		RaceInThorough: true,
 		Technique:      "runtime monitoring: differential execution against the reference shape algebra with exact comparison; invalid requests must produce an error",
 		Assumptions:    []string{"ONNX validity rules as written in DESIGN.md Appendix A.7"},
@@ -35,6 +35,120 @@ func init() {
 	validGens["Squeeze"] = func(r *gen.R, _ bool) (mon.OpReq, Expect, bool) { return genSqueeze(r, true) }
 	validGens["Unsqueeze"] = func(r *gen.R, _ bool) (mon.OpReq, Expect, bool) { return genUnsqueeze(r, true) }
 	validGens["Shape"] = func(r *gen.R, _ bool) (mon.OpReq, Expect, bool) { return genShape(r) }
+}
+
+// c07Enum is the bounded-exhaustive part (both tiers): every axis set for Squeeze and
+// Unsqueeze on inputs of rank <= 3 - every subset of the valid axes, in every order and in
+// every sign spelling - plus every Flatten axis in [-rank-2, rank+2] for those shapes.
+type c07EnumCase struct {
+	op    string
+	shape []int
+	axes  []int64
+	axis  int
+}
+
+var c07Enum = func() []c07EnumCase {
+	var out []c07EnumCase
+	var shapes [][]int
+	var rec func(p []int, rank int)
+	rec = func(p []int, rank int) {
+		if len(p) == rank {
+			shapes = append(shapes, append([]int{}, p...))
+			return
+		}
+		for _, e := range []int{1, 2} {
+			rec(append(p, e), rank)
+		}
+	}
+	for r := 0; r <= 3; r++ {
+		rec(nil, r)
+	}
+	var orderings func(items []int) [][]int
+	orderings = func(items []int) [][]int {
+		if len(items) <= 1 {
+			return [][]int{append([]int{}, items...)}
+		}
+		var res [][]int
+		for i := range items {
+			rest := append(append([]int{}, items[:i]...), items[i+1:]...)
+			for _, o := range orderings(rest) {
+				res = append(res, append([]int{items[i]}, o...))
+			}
+		}
+		return res
+	}
+	spellings := func(axes []int, rank int, emit func([]int64)) {
+		for mask := 0; mask < 1<<uint(len(axes)); mask++ {
+			sp := make([]int64, len(axes))
+			for i, a := range axes {
+				sp[i] = int64(a)
+				if mask&(1<<uint(i)) != 0 {
+					sp[i] = int64(a - rank)
+				}
+			}
+			emit(sp)
+		}
+	}
+	for _, sh := range shapes {
+		r := len(sh)
+		for a := -r - 2; a <= r+2; a++ {
+			out = append(out, c07EnumCase{op: "Flatten", shape: sh, axis: a})
+		}
+		// Squeeze: non-empty subsets of ALL axes (axes of extent 2 make the request invalid)
+		for sub := 1; sub < 1<<uint(r); sub++ {
+			var items []int
+			for d := 0; d < r; d++ {
+				if sub&(1<<uint(d)) != 0 {
+					items = append(items, d)
+				}
+			}
+			for _, o := range orderings(items) {
+				spellings(o, r, func(sp []int64) { out = append(out, c07EnumCase{op: "Squeeze", shape: sh, axes: sp}) })
+			}
+		}
+		// Unsqueeze: k = 1..2 new axes at every set of output positions
+		for k := 1; k <= 2; k++ {
+			R := r + k
+			for sub := 1; sub < 1<<uint(R); sub++ {
+				var items []int
+				for d := 0; d < R; d++ {
+					if sub&(1<<uint(d)) != 0 {
+						items = append(items, d)
+					}
+				}
+				if len(items) != k {
+					continue
+				}
+				for _, o := range orderings(items) {
+					spellings(o, R, func(sp []int64) { out = append(out, c07EnumCase{op: "Unsqueeze", shape: sh, axes: sp}) })
+				}
+			}
+		}
+	}
+	return out
+}()
+
+func c07RunEnum(c *Ctx, e c07EnumCase) {
+	dt := gen.Data13[c.Idx%len(gen.Data13)]
+	x := c.R.Tensor(dt, e.shape, gen.FillUnique, 0)
+	var req mon.OpReq
+	var exp Expect
+	switch e.op {
+	case "Flatten":
+		req = mon.OpReq{Op: "Flatten", Inputs: []*ref.T{x}, Attrs: []*mon.Attr{mon.AttrI("axis", int64(e.axis))}}
+		exp = expFrom(ref.Flatten(x, e.axis))
+	case "Squeeze":
+		req = mon.OpReq{Op: "Squeeze", Inputs: []*ref.T{x, gen.I64s(e.axes...)}}
+		exp = expFrom(ref.Squeeze(x, e.axes, true))
+	default:
+		req = mon.OpReq{Op: "Unsqueeze", Inputs: []*ref.T{x, gen.I64s(e.axes...)}}
+		exp = expFrom(ref.Unsqueeze(x, e.axes))
+	}
+	c.SetCase("[enumerated] %s", req.Describe())
+	c.Nontrivial(fmt.Sprintf("enum|%s|%v|%v|%d", e.op, e.shape, e.axes, e.axis))
+	c.Count("enumerated:"+e.op, 1)
+	exotic := dt == ref.C64 || dt == ref.C128 // cannot be stored in (or loaded from) a model file
+	CheckOp(c, req, exp, c.Idx%8 == 0 && !exotic, mon.ModelOpts{InitMask: uint64(c.R.Intn(4)), RawInits: c.R.Bool()}, c07Known)
 }
 
 func c07Input(r *gen.R, minRank int) *ref.T {
@@ -276,6 +390,10 @@ func genShape(r *gen.R) (mon.OpReq, Expect, bool) {
 func c07Run(c *Ctx) {
 	if c.Idx == 0 {
 		c07StringProbe(c)
+	}
+	if c.Tier != "race" && c.Idx < len(c07Enum) {
+		c07RunEnum(c, c07Enum[c.Idx])
+		return
 	}
 	var req mon.OpReq
 	var exp Expect
